@@ -87,13 +87,18 @@ func UnlockEnvelope(
 		// Extract shares from the grant, deduplicating by ID.
 		g := group.Ristretto255
 		for _, s := range inner.GetShares() {
-			idKey := hex.EncodeToString(s.GetId())
-			if _, dup := seen[idKey]; dup {
-				continue
-			}
-
 			id := g.NewScalar()
 			if err := id.UnmarshalBinary(s.GetId()); err != nil {
+				continue
+			}
+			// Deduplicate by the canonical encoding of the parsed scalar:
+			// different byte strings can decode to the same share ID.
+			idBytes, err := id.MarshalBinary()
+			if err != nil {
+				continue
+			}
+			idKey := hex.EncodeToString(idBytes)
+			if _, dup := seen[idKey]; dup {
 				continue
 			}
 			val := g.NewScalar()
